@@ -224,6 +224,23 @@ def check_filter(sc, cls):
     if res != want:
         raise Violation({"ids": [all_ids[n] if isinstance(n, int) else n for n in flat(res)],
                          "nesting": res if res is not None else []}, required)
+    # the caller owns what it got back and goes on using it: it adds a test of its own to every plain suite of the result.
+    # Results of later, unrelated calls must not be affected (each call leaves exactly the tests of ITS argument).
+    ok, out = called(filter_by_ids, build(sc["tree"], [], cls).obj, ids)
+    if ok:
+        _adopt(out, cls)
+
+
+def _adopt(obj, cls, seen=None):
+    import unittest
+    seen = set() if seen is None else seen
+    if id(obj) in seen or is_leaf(obj):
+        return
+    seen.add(id(obj))
+    for k in list(obj):
+        _adopt(k, cls, seen)
+    if type(obj) is unittest.TestSuite:
+        obj.addTest(cls["P"]("added.by.caller", []))
 
 
 def check_sorted(sc, cls):
